@@ -334,6 +334,8 @@ func runC04(c *Ctx) {
 	}
 	// the journal as an include TREE (harness/c04trees.go): many files, big members, faults in members, perturbed schedules
 	bt.Flush()
+	// `knut balance` under full flag vectors: the exit status is the specification's verdict whatever the report shows
+	runC04BalFlags(c)
 	runC04Trees(c)
 }
 
@@ -827,4 +829,390 @@ func c04Reshape(r *RNG, j *Journal) []string {
 	}
 	sort.Strings(tags)
 	return tags
+}
+
+// ---------------------------------------------------------------- stream "balflags"
+//
+// `knut balance` accepts a journal exactly when the specification does, WHATEVER report flags are given: the flags
+// select, map, window and value what the report shows, never what the checker sees.  Every case is one generated journal
+// (re-open cycles, sparse timeline, lifecycle automaton with mutations, a ledger of several accounts per type with
+// assertions and closes on each; reshaped accounts as everywhere) and two to four full flag vectors drawn by the
+// generator C01-C03 use for balance (GenBalFlags: --account / --commodity / -m / --remap / --close=false / -v / -s /
+// intervals / --diff / --last / --from / --to / --csv / -a / -k / --digits), on which zero to three features are then
+// forced on, so that flags the generator rarely draws together do meet: --account, --commodity and --close=false weigh
+// double, and one vector in four is a filter with --close=false and without -v.  The exit status of every run is
+// evaluated against the Lean specification (`c04mon`): 0 iff well-formed; a rejecting run prints a diagnostic and no
+// report.  A valued run that stops on a missing / invalid price says nothing about the lifecycle and is not counted.
+// (Seeded change C04-j dropped, for --account/--commodity with --close=false and without -v, the postings the filter
+// does not select IN FRONT of the checker.)
+
+type c04BFRun struct {
+	f              BalFlags
+	forced         []string
+	args           []string
+	code           int
+	stdout, stderr string
+}
+
+type c04BFCase struct {
+	i             int
+	gen           string
+	text, wire    string
+	path, verdict string
+	runs          []*c04BFRun
+}
+
+// c04LedgerJournal: two to three accounts of several types (always two or more asset/liability accounts), one to three
+// commodities, every account opened, booked against ANY other open account (so that transactions between two filtered
+// accounts, between a filtered and an unfiltered one and between two unfiltered ones all occur), asserted (right, now and
+// then wrong) and closed (at zero, now and then with a position) on its own schedule; now and then a booking on an
+// account that is not open.  The specification decides the verdict.
+func c04LedgerJournal(r *RNG) (*Journal, []string) {
+	pool := []string{"Assets:Bank", "Assets:Cash", "Liabilities:Card", "Assets:Bank:Savings", "Liabilities:Loan", "Expenses:Food", "Income:Salary", "Equity:Opening", "Expenses:Rent"}
+	// two or more A/L accounts first, then any
+	accs := []string{pool[0], Pick(r, []string{pool[1], pool[2], pool[3]})}
+	for _, a := range pool[2:] {
+		if !contains(accs, a) && r.Chance(1, 2) && len(accs) < 6 {
+			accs = append(accs, a)
+		}
+	}
+	coms := []string{"CHF", "USD", "AAPL"}[:r.Range(1, 3)]
+	j := &Journal{}
+	day := 737000 + r.Intn(2500)
+	open := map[string]bool{}
+	pos := map[[2]string]decimal.Decimal{}
+	tagset := map[string]bool{}
+	isAL := func(a string) bool { return strings.HasPrefix(a, "Assets") || strings.HasPrefix(a, "Liabilities") }
+	for _, a := range accs {
+		if r.Chance(4, 5) {
+			j.Dirs = append(j.Dirs, JDir{Kind: 'o', Date: day, Account: a})
+			open[a] = true
+		}
+	}
+	if r.Chance(1, 3) {
+		for _, c := range coms {
+			if c != "CHF" {
+				j.Dirs = append(j.Dirs, JDir{Kind: 'p', Date: day, Com: c, Price: Pick(r, []string{"1.5", "0.9", "120"}), Target: "CHF"})
+			}
+		}
+	}
+	steps := r.Range(3, 24)
+	for s := 0; s < steps; s++ {
+		if !r.Chance(1, 3) {
+			day += r.Range(1, 40)
+		}
+		a := Pick(r, accs)
+		if !open[a] {
+			if r.Chance(1, 8) {
+				o := Pick(r, accs)
+				if o != a {
+					j.Dirs = append(j.Dirs, JDir{Kind: 't', Date: day, Desc: "ghost", Bookings: []JBook{{Credit: o, Debit: a, Qty: "1", Com: Pick(r, coms)}}})
+					tagset["booking-on-closed"] = true
+					continue
+				}
+			}
+			j.Dirs = append(j.Dirs, JDir{Kind: 'o', Date: day, Account: a})
+			open[a] = true
+			continue
+		}
+		switch x := r.Intn(10); {
+		case x < 5: // a booking against any other account
+			o := Pick(r, accs)
+			if o == a || (!open[o] && !r.Chance(1, 10)) {
+				continue
+			}
+			c := Pick(r, coms)
+			q := decimal.RequireFromString(Pick(r, []string{"1", "2", "5", "0.5", "10", "100", "0", "12.25"}))
+			if p := pos[[2]string{a, c}]; !p.IsZero() && r.Chance(1, 3) {
+				q = p.Neg() // a back to exactly zero
+			}
+			pos[[2]string{a, c}] = pos[[2]string{a, c}].Add(q)
+			pos[[2]string{o, c}] = pos[[2]string{o, c}].Sub(q)
+			j.Dirs = append(j.Dirs, JDir{Kind: 't', Date: day, Desc: Pick(r, []string{"move", "pay", "salary", "x"}), Bookings: []JBook{{Credit: o, Debit: a, Qty: q.String(), Com: c}}})
+		case x < 8: // an assertion (asset/liability accounts mostly: the checker tracks these)
+			if !isAL(a) && !r.Chance(1, 6) {
+				continue
+			}
+			c := Pick(r, coms)
+			q := pos[[2]string{a, c}]
+			if !isAL(a) {
+				q = decimal.Zero // (a non-zero assertion on another account is the known finding)
+			}
+			if r.Chance(1, 10) {
+				q = q.Add(decimal.New(1, 0))
+				tagset["wrong-assertion"] = true
+			}
+			j.Dirs = append(j.Dirs, JDir{Kind: 'a', Date: day, Balances: []JBal{{Account: a, Qty: q.String(), Com: c}}})
+		default: // a close
+			zero := true
+			for _, c := range coms {
+				if !pos[[2]string{a, c}].IsZero() {
+					zero = false
+				}
+			}
+			if !zero && isAL(a) && !r.Chance(1, 6) {
+				continue
+			}
+			if !zero && isAL(a) {
+				tagset["close-with-position"] = true
+			}
+			j.Dirs = append(j.Dirs, JDir{Kind: 'c', Date: day, Account: a})
+			open[a] = false
+			for _, c := range coms {
+				delete(pos, [2]string{a, c})
+			}
+		}
+	}
+	tags := []string{"ledger"}
+	for t := range tagset {
+		tags = append(tags, t)
+	}
+	sort.Strings(tags)
+	return j, tags
+}
+
+// the features forced onto a drawn vector (the filters and --close=false weigh double)
+var c04BFFeatures = []string{"acc", "acc", "com", "com", "noclose", "noclose", "map0", "mapN", "remap", "val", "noval", "window", "last", "interval", "diff", "csv"}
+
+// c04BalVector draws one flag vector for the journal.
+func c04BalVector(r *RNG, j *Journal, val string) (BalFlags, []string) {
+	f := GenBalFlags(r, j, val, BalGenOpts{Valued: val != "" && r.Bool()})
+	accounts, coms := journalNames(j)
+	lo, hi := 1<<30, 0
+	for _, d := range j.Dirs {
+		lo, hi = min(lo, d.Date), max(hi, d.Date)
+	}
+	if hi == 0 {
+		lo, hi = 737000, 737100
+	}
+	pat := func() string { return genPattern(r, accounts) }
+	compat := func() string {
+		if len(coms) == 0 {
+			return "^CHF$"
+		}
+		return "^" + Pick(r, coms) + "$"
+	}
+	several := func(one func() string) []string {
+		ps := []string{one()}
+		for r.Chance(1, 3) && len(ps) < 3 {
+			ps = append(ps, one())
+		}
+		return ps
+	}
+	var forced []string
+	chosen := map[string]bool{}
+	if r.Chance(1, 4) {
+		// a filter, no closing transactions, no valuation: nothing is derived from the postings
+		chosen["noclose"], chosen["noval"] = true, true
+		switch r.Intn(3) {
+		case 0:
+			chosen["acc"] = true
+		case 1:
+			chosen["com"] = true
+		default:
+			chosen["acc"], chosen["com"] = true, true
+		}
+	}
+	for k := Pick(r, []int{0, 0, 1, 2, 2, 3}); k > 0; k-- {
+		chosen[Pick(r, c04BFFeatures)] = true
+	}
+	if chosen["noval"] {
+		chosen["val"] = false
+	}
+	seen := map[string]bool{}
+	for _, ft := range c04BFFeatures { // (in the fixed order of the list: replayable)
+		if !chosen[ft] || seen[ft] {
+			continue
+		}
+		seen[ft] = true
+		forced = append(forced, ft)
+		switch ft {
+		case "acc":
+			f.Acc = several(pat)
+		case "com":
+			f.Com = several(compat)
+		case "noclose":
+			f.NoClose = true
+		case "map0":
+			m := MapRuleF{Level: 0}
+			if r.Chance(3, 4) {
+				m.Regex = pat()
+			}
+			f.Map = append([]MapRuleF{m}, f.Map...)
+		case "mapN":
+			m := MapRuleF{Level: r.Range(1, 3), Suffix: r.Intn(3)}
+			if r.Chance(3, 4) {
+				m.Regex = pat()
+			}
+			f.Map = append(f.Map, m)
+		case "remap":
+			f.Remap = several(pat)
+		case "val":
+			if f.Val == "" {
+				f.Val = Pick(r, append([]string{"CHF"}, coms...))
+			}
+		case "noval":
+			f.Val, f.Show = "", nil
+		case "window":
+			f.From, f.To = lo+r.Range(-5, (hi-lo)/2+3), hi+r.Range(-(hi-lo)/2-3, 40)
+		case "last":
+			f.Last = r.Range(1, 4)
+		case "interval":
+			f.Interval = r.Range(1, 5)
+		case "diff":
+			f.Diff = true
+		case "csv":
+			f.CSV, f.Thousands, f.Digits = true, false, 0
+		}
+	}
+	if f.From < 0 || f.From > maxDay {
+		f.From = 1
+	}
+	if f.To < 0 || f.To > maxDay {
+		f.To = maxDay
+	}
+	// a moderate number of periods (the report is as wide as the window has periods)
+	start, end := lo, max(hi, today())
+	if f.From != 0 {
+		start = f.From
+	}
+	if f.To != 0 {
+		end = f.To
+	}
+	if span := end - start; (f.Interval == 1 && span > 1500) || (f.Interval == 2 && span > 10000) {
+		f.Interval = 3
+	}
+	return f, forced
+}
+
+func runC04BalFlags(c *Ctx) {
+	if c.KnutBin == "" {
+		return
+	}
+	n := c.N(1200, 12000)
+	dir := filepath.Join(c.WorkDir, "c04", "balflags")
+	os.MkdirAll(dir, 0o755)
+	defer os.RemoveAll(dir)
+	t0 := time.Now()
+	defer func() { c.Extra["balflags_wall_s"] = fmt.Sprintf("%.1f", time.Since(t0).Seconds()) }()
+	bt := c.NewBatch()
+	defer bt.Flush()
+	const chunk = 64
+	for base := 0; base < n; base += chunk {
+		var cases []*c04BFCase
+		type job struct {
+			tc *c04BFCase
+			ru *c04BFRun
+		}
+		var jobs []job
+		for i := base; i < min(n, base+chunk); i++ {
+			if !c.Want("balflags", i) {
+				continue
+			}
+			r := c.Rng("balflags", i)
+			var j *Journal
+			var tags []string
+			val := ""
+			tc := &c04BFCase{i: i}
+			switch r.Intn(6) {
+			case 0:
+				j, tags = c04ReopenJournal(r)
+				tc.gen = "reopen"
+			case 1:
+				j, tags = c04TimelineJournal(r)
+				tc.gen = "timeline"
+				if r.Chance(1, 4) {
+					val = "CHF"
+				}
+			case 2, 3:
+				opts := JGenOpts{MaxAccounts: r.Range(2, 6), MaxDays: r.Range(1, 5), Mutate: true, Unicode: true, Accruals: r.Chance(1, 3), BaseDay: 737000 + r.Intn(2000), SpanDays: r.Range(0, 10)}
+				if r.Bool() {
+					opts.Prices, opts.Valuation = true, "CHF"
+					val = "CHF"
+				}
+				j, tags = GenJournal(r, opts)
+				tc.gen = "automaton"
+			default:
+				j, tags = c04LedgerJournal(r)
+				tc.gen = "ledger"
+				if r.Chance(1, 3) {
+					val = "CHF"
+				}
+			}
+			tags = append(tags, c04Reshape(r, j)...)
+			text, offsets := j.Text()
+			tc.text, tc.wire = text, j.Wire()
+			tc.path = filepath.Join(dir, fmt.Sprintf("b%d.knut", i%chunk))
+			if err := os.WriteFile(tc.path, []byte(text), 0o644); err != nil {
+				fatalf("%v", err)
+			}
+			c.Evals++
+			tc.verdict, _, _ = implCheck(tc.path, offsets)
+			for _, t := range tags {
+				c.Tag(t)
+			}
+			c.Tag("balflags:journal:" + tc.gen)
+			for k := r.Range(2, 4); k > 0; k-- {
+				f, forced := c04BalVector(r, j, val)
+				ru := &c04BFRun{f: f, forced: forced, args: append(append([]string{"balance"}, f.Args()...), tc.path)}
+				tc.runs = append(tc.runs, ru)
+				jobs = append(jobs, job{tc, ru})
+			}
+			cases = append(cases, tc)
+		}
+		parallelFor(len(jobs), 4, func(k int) {
+			ru := jobs[k].ru
+			ru.code, ru.stdout, ru.stderr = runKnut(c.KnutBin, 60*time.Second, nil, ru.args...)
+		})
+		for _, tc := range cases {
+			i := tc.i
+			for _, ru := range tc.runs {
+				ru := ru
+				f := ru.f
+				shown := strings.Join(ru.args[:len(ru.args)-1], " ")
+				in := map[string]any{"journal": tc.text, "wire": tc.wire, "args": shown}
+				for _, ft := range ru.forced {
+					c.Tag("balflags:forced:" + ft)
+				}
+				filt := "nofilter"
+				if len(f.Acc) > 0 && len(f.Com) > 0 {
+					filt = "acc+com"
+				} else if len(f.Acc) > 0 {
+					filt = "acc"
+				} else if len(f.Com) > 0 {
+					filt = "com"
+				}
+				c.Class(fmt.Sprintf("c04/balflags/%s/%s/exit%d/%s/close%s/val%s/map%d/remap%s/iv%d", tc.gen, tc.verdict, ru.code, filt, b2s(!f.NoClose), b2s(f.Val != ""), min(len(f.Map), 2), b2s(len(f.Remap) > 0), f.Interval))
+				if i < 2 && ru == tc.runs[0] {
+					c.Sample(map[string]any{"stream": "balflags", "journal": tc.text, "args": shown, "exit": ru.code, "in_process_verdict": tc.verdict})
+				}
+				if ru.code != 0 && ru.code != 1 {
+					c.Monitor("balflags", i, "balance_flags_exit_status", in, false, fmt.Sprintf("knut %s: exit %d (neither a report nor a diagnostic); stderr %q", shown, ru.code, clip(ru.stderr)))
+					continue
+				}
+				if ru.code == 1 {
+					c.Monitor("balflags", i, "balance_flags_rejection_has_diagnostic_and_no_report", in, strings.TrimSpace(ru.stderr) != "" && ru.stdout == "",
+						fmt.Sprintf("knut %s: exit 1, stdout %q stderr %q", shown, clip(ru.stdout), clip(ru.stderr)))
+				}
+				cv := "ok"
+				if ru.code != 0 {
+					cv = "error"
+				}
+				priceErr := f.Val != "" && ru.code == 1 && (strings.Contains(ru.stderr, "no price found") || strings.Contains(ru.stderr, "invalid price"))
+				bt.Add(func(mon string) {
+					switch {
+					case mon == "ok" || strings.HasPrefix(mon, "known "):
+						c.Monitored++
+					case mon == "fail spec=load-error" && ru.code == 1:
+						c.Monitored++ // the loader rejects the journal (an accrual that cannot be expanded)
+					case mon == "fail spec=ok" && priceErr:
+						c.Tag("balflags:valued-run-stopped-on-a-price") // says nothing about the lifecycle
+					default:
+						c.Monitor("balflags", i, "balance_flags_accept_iff_wellformed", in, false,
+							fmt.Sprintf("knut %s: exit %d (in-process check.Check without flags: %s), stderr %q => %s", shown, ru.code, tc.verdict, clip(ru.stderr), mon))
+					}
+				}, "c04mon", tc.wire, cv, "-")
+			}
+		}
+	}
 }
